@@ -400,6 +400,10 @@ def build(cfg, world, shared=None):
         kw['cash_buffer_percentage'] = cfg['buffer']
     else:
         kw['gross_leverage'] = cfg['leverage']
+    if cfg.get('both_sizing_kwargs'):
+        # a parameter sweep passes the same keyword set to every session: the one that belongs to the other mode is ignored
+        kw.setdefault('gross_leverage', 2.5)
+        kw.setdefault('cash_buffer_percentage', 0.4)
     if cfg.get('portfolio_id'):
         kw['portfolio_id'] = cfg['portfolio_id']          # documented optional argument (also an id equal to a report key)
     default_handler = (cfg.get('default_handler') and world.adjust and getattr(world, 'extra', None) is None
@@ -1051,6 +1055,7 @@ def gen_cfg(rng, alpha_kinds=('fixed',), universe_kinds=('static',), max_days=25
         mk['level'] = {s_: rng.uniform(20, 400) for s_ in syms}
         mk['ratio'] = {s_: 1.0 for s_ in syms}
     cfg['market'] = mk
+    cfg['both_sizing_kwargs'] = rng.random() < 0.25
     cfg['loud'] = rng.random() < 0.2          # the library's event printing left at its default (on)
     cfg['tz_mix'] = rng.choice([None, None, None, 'start', 'end'])
     cfg['portfolio_id'] = rng.choice([None] * 6 + ['master', 'p-1'])
